@@ -265,6 +265,14 @@ Proof. exact (writers_refuted_lemma HS HS_shape). Qed.
 
 End C06.
 
+(** What the decidable name predicates used above mean. *)
+Theorem C06_name_predicates_spec :
+  (forall n, name_wf n = true <->
+     (exists p, n = p ++ s_sql) /\ (forall a b, n = a ++ s_sql ++ b -> b = [])) /\
+  (forall d, all_sql d = true <-> forall f, In f d -> exists p, fst f = p ++ s_sql) /\
+  (forall n, name_ok n = true <-> trim_space n = n /\ no_nl n).
+Proof. exact (conj name_wf_spec (conj all_sql_spec name_ok_spec)). Qed.
+
 (** The section premise is satisfiable (the toy function is not collision
     free; no theorem needs that). *)
 Theorem C06_hash_shape_satisfiable : exists HS : bytes -> bytes, forall x, hash_ok (HS x).
@@ -289,6 +297,7 @@ Print Assumptions C06_validate_no_panic_except.
 Print Assumptions C06_validate_panic_refuted.
 Print Assumptions C06_writers_inv.
 Print Assumptions C06_writers_refuted.
+Print Assumptions C06_name_predicates_spec.
 Print Assumptions C06_hash_shape_satisfiable.
 
 (** * Non-vacuity: concrete inputs meeting the hypotheses (toy hash) *)
